@@ -177,9 +177,31 @@ private:
 	void pickNextLocked() {
 		const int n = (int)threads.size();
 		int chosen = -1;
+		// Schedule entries 1000 + w and 2000 + w are wake-ups without a notification (QConc.unnotified): they apply only
+		// when they stand at the head of the remaining schedule at a scheduling step, exactly as in the model; elsewhere
+		// they are skipped like the id of a thread that cannot run.
+		bool head = true;
 		while(pos < schedule.size()) {
 			const int want = schedule[pos++];
+			if(want >= 1000) {
+				bool applied = false;
+				if(head) {
+					const bool spurious = want >= 2000;
+					const int w = want - (spurious ? 2000 : 1000);
+					if(w < n) {
+						ThreadState & t = threads[w];
+						if(! t.finished && t.waitingCv && (spurious || t.timedWait)) {
+							t.waitingCv = false; t.timedOut = ! spurious; t.kind = Kind::Lock; t.obj = t.relock;
+							if(! spurious) std::printf("act t%d timeout\n", w);
+							applied = true;
+						}
+					}
+				}
+				head = applied;
+				continue;
+			}
 			if(want >= 0 && want < n && enabledLocked(want)) { chosen = want; break; }
+			head = false;
 		}
 		if(chosen < 0) {
 			for(int i = 0; i < n; ++i) if(enabledLocked(i)) { chosen = i; break; }
